@@ -559,9 +559,10 @@ impl GremlinTranslator {
                 Ok((plan, None))
             }
             ast::Step::Dedup(keys) => {
-                // If keys are specified, use column-specific dedup
+                // dedup() removes duplicates of the current traverser (not of the whole path that
+                // led to it); if keys are specified, use column-specific dedup on them
                 let columns = if keys.is_empty() {
-                    None
+                    Some(vec![current_var.to_string()])
                 } else {
                     Some(keys.clone())
                 };
